@@ -340,6 +340,24 @@ func EnumerateDecisions(p *Program, fn *ssa.Function, opts DecisionOpts) (paths 
 					}
 				}
 			}
+			if mu, ok := in.(*ssa.MapUpdate); ok {
+				// m[k] = v: conditions decided earlier that look k up in m are no longer decided
+				// (any key, when k is not a constant)
+				m, k := canon.Of(mu.Map), canon.Of(mu.Key)
+				_, constKey := mu.Key.(*ssa.Const)
+				if m != "" {
+					for a := range st.assign {
+						hit := strings.Contains(a, m+"["+k+"]") || strings.Contains(a, "in("+m+","+k+")")
+						if !constKey {
+							hit = strings.Contains(a, m+"[") || strings.Contains(a, "in("+m+",")
+						}
+						if hit {
+							delete(st.assign, a)
+							st.version[strings.TrimRight(a, "′")]++
+						}
+					}
+				}
+			}
 			if opts.Event != nil {
 				if ev, ok := opts.Event(in, canon); ok {
 					st.events = append(st.events, ev)
